@@ -22,6 +22,7 @@ use std::sync::atomic::{AtomicU64, Ordering};
 use std::sync::Mutex;
 
 const VERSIONS: [u64; 4] = [11, 12, 13, 14];
+const VERSIONS5: [u64; 5] = [11, 12, 13, 14, 15];
 const MAGIC_A: u64 = 764824073;
 const MAGIC_B: u64 = 42;
 
@@ -41,9 +42,13 @@ fn data(opt: u8) -> Option<Data> {
 type Table = BTreeMap<u64, Data>;
 
 fn table(code: usize, opts: usize) -> Table {
+    table_over(code, opts, &VERSIONS)
+}
+
+fn table_over(code: usize, opts: usize, versions: &[u64]) -> Table {
     let mut t = BTreeMap::new();
     let mut c = code;
-    for v in VERSIONS {
+    for &v in versions {
         if let Some(d) = data((c % opts) as u8) {
             t.insert(v, d);
         }
@@ -182,8 +187,15 @@ pub fn run(ctx: Ctx) -> ! {
     let evals = AtomicU64::new(0);
     let outcomes: Mutex<BTreeMap<String, u64>> = Default::default();
     let distinct: Mutex<BTreeSet<String>> = Default::default();
-    (0..n * n).into_par_iter().for_each(|code| {
-        let (c, s) = (table(code / n, opts), table(code % n, opts));
+    let mut passes: Vec<(usize, Vec<u64>)> = vec![(opts, VERSIONS.to_vec())];
+    if ctx.thorough {
+        // a fifth version number with the three basic options
+        passes.push((3, VERSIONS5.to_vec()));
+    }
+    for (popts, versions) in &passes {
+    let pn = popts.pow(versions.len() as u32);
+    (0..pn * pn).into_par_iter().for_each(|code| {
+        let (c, s) = (table_over(code / pn, *popts, versions), table_over(code % pn, *popts, versions));
         for stack in ["network", "network2"] {
             evals.fetch_add(1, Ordering::Relaxed);
             let case = || json!({"stack": stack, "client_table": format!("{c:?}"), "server_table": format!("{s:?}")});
@@ -204,6 +216,7 @@ pub fn run(ctx: Ctx) -> ! {
             }
         }
     });
+    }
     let outcomes = outcomes.into_inner().unwrap();
     for k in ["network:accept", "network2:accept", "network:version-mismatch", "network2:version-mismatch"] {
         if !outcomes.contains_key(k) && ctx.violation_count() == 0 {
